@@ -270,6 +270,36 @@ func runC08(rc *RunCtx) {
 		}
 		sc.Then = follow
 	}
+	if plain := sc.Fault == FStall || sc.Fault == FEOF || sc.Fault == FIOErr || sc.Fault == FOversize; follow == nil && plain && sc.Kind != KSerial && !rc.Scen.Has("prefix") && rc.Scen.Chance(1, 8) {
+		// the faulty exchange is not the client's first: a healthy one came before, then the application connected again
+		// (with or without closing first) - whatever the client remembers from the old connection must not matter
+		if pre, ok := genC07Kind(rc, int(sc.Kind)); ok {
+			pre.ReadTimeout, pre.WriteTimeout, pre.WrappedTimeouts = sc.ReadTimeout, sc.WriteTimeout, sc.WrappedTimeouts
+			if need := 2*totalGap(pre.Chunks) + 50*time.Millisecond; sc.ReadTimeout < need {
+				pre.Chunks = []Chunk{{N: len(pre.Reply)}}
+			}
+			pre.Then = sc
+			sc.Reconnect = 1 + rc.Scen.Choose(2)
+			out := RunC1(rc, pre)
+			rc.Desc = sc.describe()
+			rc.Desc["after_a_healthy_call_and_reconnect"] = sc.Reconnect
+			rc.Nontrivial = true
+			rc.Probe("fault_after_healthy_call_and_reconnect")
+			if out.Panic != nil {
+				rc.Violate("panic", fmt.Sprintf("client=%s|fault=%s|after_reconnect", sc.Kind, sc.Fault), "panic in %s: %s", out.Panic.Task, out.Panic.Value)
+				return
+			}
+			if !out.Returned {
+				return // the healthy call is C07's business
+			}
+			if len(out.Next) != 1 {
+				rc.Violate("hang", fmt.Sprintf("client=%s|fault=%s|after_reconnect", sc.Kind, sc.Fault), "Do on the re-connected client did not return (hang=%v overstep=%v) after %v simulated", out.Hang, out.OverStep, rc.SimTime)
+				return
+			}
+			checkC08(rc, sc, out.Next[0])
+			return
+		}
+	}
 	if follow == nil && sc.Fault == FOversize && sc.Endless && rc.Scen.Chance(1, 2) {
 		// the flood goes on, and the application tries again on the same client
 		c := *sc
